@@ -39,7 +39,7 @@ pub fn plan(quick: bool) -> Vec<Part> {
 }
 
 pub fn finalize(_tier: &str, rep: &mut Report) {
-    rep.rule = "every read set of the listed families x {stranded, unstranded} x label assignment {all reads one colour, read i has colour i mod 2} on pruned tables; entry points compress_kmers_with_hash / compress_kmers (always-true join) / compress_kmers with the payload-equality predicate / compress_kmers_no_exts; oracle = equality of the node partition with the union-find components of joinable links of the reference (is_compressed is never consulted); non-trivial as for C01 plus colour boundaries inside unbranched paths and isolated cycles".into();
+    rep.rule = "every read set of the listed families x {stranded, unstranded} x label assignment {all reads one colour, read i has colour i mod 2} on pruned tables; entry points compress_kmers_with_hash / compress_kmers (always-true join) / compress_kmers with the payload-equality predicate / compress_kmers_no_exts / one-k-mer-per-node graph (both node orders) -> compress_graph; oracle = equality of the node partition with the union-find components of joinable links of the reference (is_compressed is never consulted); non-trivial as for C01 plus colour boundaries inside unbranched paths and isolated cycles".into();
     rep.assumptions.push("K >= 8 k-mer types are covered by the structure catalogue only (content not exhaustive)".into());
     for f in ["palindromic_kmer", "self_link_or_hairpin", "branch", "multi_kmer_unitig", "isolated_cycle"] {
         rep.floor(&format!("R1+RT@K4:{}", f), 1);
@@ -86,6 +86,16 @@ pub fn run<K: Kmer + Send + Sync>(c: &GCase) -> Outcome {
     note(&mut o, "compress_kmers", check_maximal(&gv, t, &always));
     let (_, gv) = finish_view(compress_kmers_with_hash(c.stranded, &sum_spec(), &hash_of(&pruned)));
     note(&mut o, "compress_kmers_with_hash", check_maximal(&gv, t, &always));
+    // the re-compression route as an entry point: one k-mer per node (ascending and descending order) -> compress_graph
+    for rev in [false, true] {
+        let mut bg: debruijn::graph::BaseGraph<K, u16> = debruijn::graph::BaseGraph::new(c.stranded);
+        let it: Vec<&(K, (Exts, u16))> = if rev { pruned.iter().rev().collect() } else { pruned.iter().collect() };
+        for (km, (e, d)) in it {
+            bg.add(km.iter(), *e, *d);
+        }
+        let g2 = compress_graph(c.stranded, &sum_spec(), bg.finish_serial(), None);
+        note(&mut o, if rev { "singletons(desc)->compress_graph" } else { "singletons(asc)->compress_graph" }, check_maximal(&view(&g2), t, &always));
+    }
     // k-mers without extensions: reference = all present neighbours
     {
         let keys: Vec<S> = m.kept.e.keys().cloned().collect();
